@@ -410,8 +410,10 @@ AccStrict(acc, k, L) ==
                                   [] OTHER -> OnlyValue)
       [] acc \in {"ToFloat", "ToInteger"} -> ConvReply(k, "number", L)
       \* these have no error result: they must return
-      [] acc \in {"String", "ToBoolean", "IsNaN", "IsFunction", "Class", "IsPrimitive", "Export", "Object.Keys",
+      [] acc \in {"String", "ToBoolean", "IsNaN", "IsFunction", "Class", "IsPrimitive", "Object.Keys",
                   "Object.KeysByParent", "Object.Class", "Object.Value"} -> OnlyValue
+      \* Export reads every enumerable property (8.12.3): a getter that throws is an error result
+      [] acc = "Export" -> (IF k = "thrower" THEN OnlyError("Error") ELSE OnlyValue)
       [] acc = "Object.Get" -> (IF k = "thrower" THEN OnlyError("Error") ELSE IF Host(k) THEN AnyReply ELSE OnlyValue)
       [] acc = "Object.Set" -> (IF k = "frozen" THEN OnlyError("TypeError") ELSE AnyReply)     \* 8.12.5 [[Put]] with Throw = true
       [] OTHER -> AnyReply
@@ -423,8 +425,8 @@ AccDeviate(acc, k, L, e) ==
               THEN OnlyPanic("*otto.exception") ELSE d1
         d3 == IF D("D02_value_export_exception_escapes") /\ acc = "Export" /\ k = "thrower"
               THEN OnlyPanic("*otto.exception") ELSE d2
-        d4 == IF D("D02_gomap_key_error_escapes") /\ acc = "Object.Set" /\ k = "goMapIS" THEN OnlyPanic(NumErr) ELSE d3
-        d5 == IF D("D02_go_element_write_error_escapes") /\ acc = "Object.Set" /\ k \in {"goMapSI", "goSlice"} THEN OnlyPanic(GoErr) ELSE d4
+        d4 == IF D("D02_gomap_key_error_escapes") /\ acc = "Object.Set" /\ k = "goMapIS" THEN Widen(d3, {NumErr}, FALSE, {}) ELSE d3
+        d5 == IF D("D02_go_element_write_error_escapes") /\ acc = "Object.Set" /\ k \in {"goMapSI", "goMapIS", "goSlice"} THEN Widen(d4, {GoErr}, FALSE, {}) ELSE d4
         \* from Go, at rest, no execution context exists: built-in frames are not counted and the recursion
         \* join -> toString -> join of a cyclic array is unbounded whatever the configured limit
         d6 == IF D("D02_api_conversion_ignores_stack_limit") /\ k = "cyclicArr" /\ acc \in {"String", "ToString", "ToFloat", "ToInteger", "IsNaN", "Object.Call"}
